@@ -9,6 +9,7 @@ import (
 // makeUmemo: coefficient recurrence, sibling agreement of the two passes,
 // base case and step terms.
 func propC02umemo(a *Analysis, r *Registry, b *B) {
+	propC02bounds(a, r, b)
 	X := b.X
 	S := X.S
 	const rB = "B-C02 makeUmemo"
@@ -242,4 +243,55 @@ func propC02umemo(a *Analysis, r *Registry, b *B) {
 	b.guard(rB, name+"/returns", func() {
 		b.EqRF(rB, name+"/returns", b.pos(fn), fc.RetVal(0), ASl, "returns the memo table")
 	})
+}
+
+// propC02bounds: the attainable range of 2U used to size makeUmemo's tables —
+// twoUmin fills the tie groups from the first one (k = 1 … K), twoUmax from
+// the last one (k = K … 1), each taking min(n1 left, t[k-1]) items with
+// coefficient a[k], starting from -n1²; sumint is the plain sum.
+func propC02bounds(a *Analysis, r *Registry, b *B) {
+	X, S := b.X, b.X.S
+	const rB = "B-C02 makeUmemo"
+	for _, up := range []bool{true, false} {
+		up := up
+		fname := map[bool]string{true: "stats.twoUmin", false: "stats.twoUmax"}[up]
+		fn := b.Fn(rB, fname)
+		if fn == nil {
+			continue
+		}
+		b.guard(rB, fname, func() {
+			fc := X.FCFor(fn)
+			env := X.EnvFor(fn, "n1", "t", "a")
+			rv := fc.RetVal(0)
+			take := "ite(n1k<t[k-1], n1k, t[k-1])"
+			kInit, kNext := "1", "k+1"
+			if !up {
+				kInit, kNext = "len(t)", "k-1"
+			}
+			vars := b.LoopSystem(rB, fname+"/recurrences", b.pos(fn), fc, rv, env, []recSpec{
+				{"k", kInit, kNext},
+				{"n1k", "n1", "n1k-" + take},
+				{"twoU", "-n1*n1", "twoU+" + take + "*a[k]"},
+			})
+			if vars == nil {
+				return
+			}
+			b.EqRF(rB, fname+"/result", b.pos(fn), rv, vars["twoU"], "returns the accumulated bound")
+			b.FullScan("C-scan coverage", fname+"/all-groups", b.pos(fn), fc, vars["k"].Sub(S.Int(1)), S.MakeFn("len", env.Vars["t"].RF))
+		})
+	}
+	if fn := b.Fn(rB, "stats.sumint"); fn != nil {
+		b.guard(rB, "stats.sumint", func() {
+			fc := X.FCFor(fn)
+			env := X.EnvFor(fn, "xs")
+			rv := fc.RetVal(0)
+			x, i := fc.elemOf(rv, env.MustParse("xs"))
+			env.Set("x", x, nil)
+			vars := b.LoopSystem(rB, "stats.sumint/recurrence", b.pos(fn), fc, rv, env, []recSpec{{"sum", "0", "sum+x"}})
+			if vars != nil {
+				b.EqRF(rB, "stats.sumint/result", b.pos(fn), rv, vars["sum"], "returns the sum")
+				b.FullScan("C-scan coverage", "stats.sumint/all", b.pos(fn), fc, i, S.MakeFn("len", env.Vars["xs"].RF))
+			}
+		})
+	}
 }
